@@ -52,6 +52,9 @@ type Svc struct {
 	// returns an answer (a value or "not changed"), i.e. strictly between two
 	// requests of a sequential client.
 	OnAnswered func(n int, name string)
+	// OnCtx, if set, runs (without the lock) at the start of request number n with the
+	// context the request was made with - so a harness can tell WHOSE context a shared request carries.
+	OnCtx func(ctx context.Context, n int, name string)
 	count      int
 	// MaxRequests bounds the requests of one scenario (default 50000). A client
 	// that exceeds it is spinning; further requests park until Release so that
@@ -158,6 +161,7 @@ func (s *Svc) do(ctx context.Context, op, name string, old api.SecretVersion) (*
 	s.count++
 	n := s.count
 	hook := s.OnRequest
+	ctxHook := s.OnCtx
 	max := s.MaxRequests
 	if max == 0 {
 		max = 50000
@@ -180,6 +184,9 @@ func (s *Svc) do(ctx context.Context, op, name string, old api.SecretVersion) (*
 		s.log[idx].Outcome = outcome
 		s.log[idx].Served = sv
 		s.mu.Unlock()
+	}
+	if ctxHook != nil && !over {
+		ctxHook(ctx, n, name)
 	}
 	if hook != nil {
 		hook(n, name)
